@@ -95,6 +95,28 @@ def obligations(tier, seed):
             obs.append(Ob(id='C14.muldiv.%s' % rep, prop='C14', group='C14.%s' % rep, prelude=PRE, wrappers=[w_mul, w_sq, w_cu, w_div, w_raw], inputs=[(ct, 'a'), (ct, 'b')], body=body,
                           budget=300, contract='forall a,b:%s with the raw expression defined: product, int_pow<2>, int_pow<3>, quotient (unblock_int_div) and same-unit quotient equal the raw operator; no UB:*' % ct,
                           functions_under_contract=('au::Quantity::operator*(Quantity)', 'au::Quantity::operator/(Quantity)', 'au::int_pow', 'au::unblock_int_div')))
+    # ---- units that cancel collapse to a raw number: q[m] * q[1/m], and q / q of quantity-equivalent units
+    for rep in ('i32', 'f64'):
+        ct = G.ctype(rep); fp = G.is_fp(rep)
+        wc1 = Wrapper('w_cancelprod_' + rep, ct, [(ct, 'a'), (ct, 'b')], '%s r = au::make_quantity<au::Meters>(a) * au::make_quantity<au::UnitInverseT<au::Meters>>(b); return r;' % ct)
+        if fp:
+            wc1b = Wrapper('w_cancelprod_ref_' + rep, ct, [(ct, 'a'), (ct, 'b')], 'return (au::make_quantity<au::Meters>(a) * au::make_quantity<au::Seconds>(b)).in(au::UnitProductT<au::Meters, au::Seconds>{});')
+            body = '''
+  ASSUME(n >= 1 && n <= 200 && m >= 1 && m <= 64);
+  double a = (double)n / 8.0, b = (double)m + 0.5;
+  %s r = w_cancelprod_%s(a, b);
+  CHECK(vf_f64_bits(r) == vf_f64_bits(a * b), "cancelling-product-is-the-raw-product");
+''' % (ct, rep)
+            obs.append(Ob(id='C14.cancel.family.%s' % rep, prop='C14', group='C14.cancel', prelude=PRE, wrappers=[wc1], inputs=[('uint8_t', 'n'), ('uint8_t', 'm')], body=body, fp=True, budget=300,
+                          bounded=True,
+                          contract='restricted family a = n/8 (n <= 200), b = m + 0.5 (m <= 64): m(a) * (1/m)(b) collapses to the raw double a*b bit for bit',
+                          functions_under_contract=('au::Quantity::operator*', 'au::make_quantity_unless_unitless')))
+        else:
+            body = '''
+  if (!VF_MUL_OVF(%s, a, b)) CHECK(w_cancelprod_%s(a, b) == (%s)((%s)a * (%s)b), "cancelling-product-is-the-raw-product");
+''' % (ct, rep, ct, ct, ct)
+            obs.append(Ob(id='C14.cancel.%s' % rep, prop='C14', group='C14.cancel', prelude=PRE, wrappers=[wc1], inputs=[(ct, 'a'), (ct, 'b')], body=body,
+                          contract='m(a) * (1/m)(b) collapses to the raw number a*b', functions_under_contract=('au::Quantity::operator*', 'au::make_quantity_unless_unitless')))
     # ---- raw number / unblock_int_div(quantity) with a numerator type NARROWER than the divisor's rep: the raw operator works in the common type
     inv = 'au::UnitInverseT<au::Seconds>'
     w1 = Wrapper('w_rawdiv_i32_i64', 'int64_t', [('int32_t', 'x'), ('int64_t', 'q')], 'return (x / au::unblock_int_div(au::make_quantity<au::Seconds>(q))).in(%s{});' % inv)
